@@ -664,7 +664,10 @@ def run_concurrent(ctx, res: Result):
         res.notes.append(f"thorough: {len(small_programs())} small programs, {total} explored schedules; for {complete} programs ALL schedules "
                          f"with <= 2 pre-emptions were run; for the others (producers {sorted(set(truncated))}) the first {cap} schedules with <= 2 "
                          f"pre-emptions and all schedules with <= 1 pre-emption")
-    compare_with_model(res, pending)
+    if _OBS["fine"]:
+        compare_with_model(res, pending)
+    else:
+        res.notes.append("lock-step replay skipped (no _last_item to observe); the linearisation oracle ran on every execution")
 
 
 def run(ctx) -> Result:
